@@ -161,6 +161,8 @@ type checker struct {
 	printed        map[string]int // notation chosen by the printer -> count
 	parseErr       int
 	modular        int // round trips that preserve the value of the type but not the integer X
+	moduleLits     int // literals parsed as part of a multi-literal module
+	histPrints     int // prints observed inside print-mutate-print histories
 	choiceExamples []string
 }
 
@@ -479,6 +481,8 @@ func Run(tier, replay string) {
 	rep.Extra["vectors_by_notation"] = perTag
 	c.judge("vectors")
 
+	c.modulesAndHistories(tier, vectors, rng)
+
 	// (T) seeded random (width, value) pairs up to i4096.
 	n := 2500
 	if tier == "thorough" {
@@ -528,6 +532,116 @@ func Run(tier, replay string) {
 		"s0x is judged by the property's definition (two's complement at the type width), not by LLVM 14's reading",
 	}
 	rep.Finish()
+}
+
+// modulesAndHistories runs the two context checks: literals inside multi-literal modules
+// (LiteralsIntMod.tla and regrouped vectors of LiteralsInt.tla) and print-mutate-print
+// histories (LiteralsIntHist.tla).
+func (c *checker) modulesAndHistories(tier string, vectors []vector, rng *rand.Rand) {
+	rep := c.rep
+	// (S) a cache keyed by the literal text alone must show the counterexample
+	t := mbt.MustTLC(mbt.TLCOpts{Spec: "LiteralsIntMod", Cfg: "LiteralsIntModCache.cfg", Workers: 2})
+	if len(t.Violated) != 1 || t.Violated[0] != "CacheSound" {
+		mbt.Infra("LiteralsIntModCache.cfg: expected CacheSound to be violated (i8 s0x80 ; i16 s0x80), got %v", t.Violated)
+	}
+	t.Cleanup()
+	runs := []map[string]string{
+		{},
+		{"TextWidths": "{8}", "ModWidths": "{8, 9, 16}", "MaxSame": "3"},
+	}
+	if tier == "thorough" {
+		runs = []map[string]string{
+			{"TextWidths": "{1, 4, 5, 8, 16}", "ModWidths": "{1, 4, 5, 8, 9, 16, 17, 33, 64, 65}"},
+			{"TextWidths": "{5, 8}", "ModWidths": "{5, 8, 9, 16, 33}", "MaxSame": "3"},
+		}
+	}
+	nmod := 0
+	t0 := time.Now()
+	for _, consts := range runs {
+		t = mbt.MustTLC(mbt.TLCOpts{Spec: "LiteralsIntMod", Cfg: "LiteralsIntMod.cfg", Consts: consts, Workers: 8, Timeout: 20 * time.Minute})
+		if len(t.Violated) > 0 {
+			mbt.Infra("LiteralsIntMod.tla violates %v: specification error\n%s", t.Violated, tail(t.Output))
+		}
+		rep.AddTLC(t)
+		mods := readModVectors(t.Output)
+		t.Cleanup()
+		if len(mods) == 0 {
+			mbt.Infra("LiteralsIntMod emitted no modules")
+		}
+		for _, mv := range mods {
+			for _, layout := range layouts {
+				rep.Count(fmt.Sprintf("module:%s|%v", layout, moduleKey(mv.Entries)), true)
+				c.checkModule(layout, mv.Entries, true)
+				nmod++
+			}
+			if nmod < 4 && mv.Fam == "same-text" && len(mv.Entries) == 2 && mv.Entries[0].W != mv.Entries[1].W && strings.HasPrefix(strOf(mv.Entries[0].Lit), "s0x") {
+				rep.Sample(map[string]interface{}{"kind": "module", "family": mv.Fam, "text": renderModule("globals", mv.Entries)})
+			}
+		}
+	}
+	rep.Extra["modules_from_tlc_parsed"] = nmod
+	// the single-literal vectors again, grouped into modules
+	byText, byWidth := regroup(vectors, rng)
+	for i, es := range byText {
+		// regroup returns every text twice: in TLC's order (even index) and reversed
+		layout := "globals"
+		if i%2 == 1 {
+			layout = "struct"
+		}
+		rep.Count(fmt.Sprintf("module:%s|%v", layout, moduleKey(es)), true)
+		c.checkModule(layout, es, true)
+	}
+	for _, es := range byWidth {
+		rep.Count(fmt.Sprintf("module:globals|%v", moduleKey(es)), true)
+		c.checkModule("globals", es, true)
+	}
+	rep.Extra["modules_regrouped_same_text"] = len(byText)
+	rep.Extra["modules_regrouped_same_width"] = len(byWidth)
+	rep.Extra["literals_parsed_inside_modules"] = c.moduleLits
+	rep.Extra["wall_s_modules"] = time.Since(t0).Seconds()
+
+	// (S) a printer that memoises its literal must show the counterexample
+	t = mbt.MustTLC(mbt.TLCOpts{Spec: "LiteralsIntHist", Cfg: "LiteralsIntHistMemo.cfg", Workers: 2})
+	if len(t.Violated) != 1 || t.Violated[0] != "PrintCurrent" {
+		mbt.Infra("LiteralsIntHistMemo.cfg: expected PrintCurrent to be violated (New; Print; change; Print), got %v", t.Violated)
+	}
+	t.Cleanup()
+	t0 = time.Now()
+	hconsts := map[string]string{}
+	if tier == "thorough" {
+		hconsts["Widths"] = "{1, 8, 16, 33, 64, 80, 128}"
+		hconsts["DeepWidths"] = "{16, 64}"
+	}
+	t = mbt.MustTLC(mbt.TLCOpts{Spec: "LiteralsIntHist", Cfg: "LiteralsIntHist.cfg", Consts: hconsts, Workers: 8, Timeout: 20 * time.Minute})
+	if len(t.Violated) > 0 {
+		mbt.Infra("LiteralsIntHist.tla violates %v: specification error\n%s", t.Violated, tail(t.Output))
+	}
+	rep.AddTLC(t)
+	rep.Extra["wall_s_tlc_histories"] = t.Wall.Seconds()
+	hists := readHistVectors(t.Output)
+	t.Cleanup()
+	if len(hists) == 0 {
+		mbt.Infra("LiteralsIntHist emitted no histories")
+	}
+	for i, h := range hists {
+		rep.Count("history:"+h.describe(), true)
+		c.replayHistory(h)
+		if i == len(hists)/2 {
+			rep.Sample(map[string]interface{}{"kind": "history", "history": h.describe()})
+		}
+	}
+	rep.Extra["histories_replayed"] = len(hists)
+	rep.Extra["prints_inside_histories"] = c.histPrints
+	rep.Extra["wall_s_histories"] = time.Since(t0).Seconds()
+	c.judge("modules+histories")
+}
+
+func moduleKey(es []modEntry) string {
+	var sb strings.Builder
+	for _, e := range es {
+		fmt.Fprintf(&sb, "i%d %s;", e.W, strOf(e.Lit))
+	}
+	return sb.String()
 }
 
 // consistency checks a long decimal literal against the u0x spelling of the same magnitude.
@@ -692,6 +806,35 @@ func runReplay(c *checker, path string) {
 		mbt.Infra("replay %s: %v", path, e)
 	}
 	for _, f := range one.Failures {
+		switch f.Case["kind"] {
+		case "module":
+			b, _ := json.Marshal(f.Case["entries"])
+			var es []struct {
+				W   int    `json:"w"`
+				Lit string `json:"lit"`
+			}
+			if json.Unmarshal(b, &es) != nil || len(es) == 0 {
+				mbt.Infra("replay %s: malformed module case", path)
+			}
+			layout, _ := f.Case["layout"].(string)
+			var entries []modEntry
+			for _, e := range es {
+				entries = append(entries, modEntry{W: e.W, Lit: bytesOf(e.Lit)})
+			}
+			c.rep.Count("module:"+layout+"|"+moduleKey(entries), true)
+			// the required values are not in the case: TLC judges the recorded rows (IntDenote)
+			c.checkModule(layout, entries, false)
+			continue
+		case "history":
+			b, _ := json.Marshal(f.Case["hist"])
+			var h histVector
+			if json.Unmarshal(b, &h.Hist) != nil || len(h.Hist) == 0 {
+				mbt.Infra("replay %s: malformed history case", path)
+			}
+			c.rep.Count("history:"+h.describe(), true)
+			c.replayHistory(h)
+			continue
+		}
 		wf, _ := f.Case["w"].(float64)
 		w := int(wf)
 		if w < 1 {
